@@ -34,6 +34,11 @@ var _ = func() bool {
 		filtered, unknown := filterForwardBuildFlags(verifToks(a))
 		return verifList(filtered) + " | " + verifHex([]byte(unknown))
 	}
+	// chdirsplit <toks> -> the real splitChdirFlag: "<chdir list> | <rest list>"
+	verifOps["chdirsplit"] = func(a []string) string {
+		chdir, rest := splitChdirFlag(verifToks(a))
+		return verifList(chdir) + " | " + verifList(rest)
+	}
 	verifOps["reject"] = func(a []string) string {
 		if err := rejectUnknownBuildFlags(verifToks(a)); err != nil {
 			return "1"
